@@ -304,6 +304,7 @@ type KVProfile struct {
 	TickHeavy bool // advance the clock before most steps
 	ExpiryMix bool // bias towards commands that set or observe deadlines
 	Swap      int  // 1-in-N steps is a SWAPDB between two of Dbs (0 = never)
+	Extra     int  // 1-in-N steps is followed by a RANDOMKEY or TOUCH (own random stream; 0 = never)
 	Dbs       []int
 }
 
@@ -319,6 +320,7 @@ func RandomKVPrograms(seed int64, n, length int, prof KVProfile) []Program {
 	if len(prof.Dbs) == 0 {
 		prof.Dbs = []int{0}
 	}
+	rx := rand.New(rand.NewSource(seed + 99991))
 	var out []Program
 	for i := 0; i < n; i++ {
 		nk := 2 + r.Intn(3)
@@ -355,6 +357,21 @@ func RandomKVPrograms(seed int64, n, length int, prof KVProfile) []Program {
 				cmd = genExpiry(r, keys, now)
 			}
 			p.Steps = append(p.Steps, Step{Cmd: cmd, Tick: t})
+			if prof.Extra > 0 && rx.Intn(prof.Extra) == 0 {
+				var x []Tok
+				switch rx.Intn(5) {
+				case 0, 1:
+					x = []Tok{S("RANDOMKEY")}
+				case 2:
+					x = []Tok{S("RANDOMKEY"), S(keys[0])} // wrong arity
+				default:
+					x = []Tok{S("TOUCH")}
+					for j := rx.Intn(4); j > 0; j-- {
+						x = append(x, S(keys[rx.Intn(len(keys))]))
+					}
+				}
+				p.Steps = append(p.Steps, Step{Cmd: x, Tick: pick(rx, []int64{0, 0, 1000, 2000})})
+			}
 		}
 		out = append(out, p)
 	}
